@@ -18,6 +18,8 @@ def run(rep, tier, seed, replay):
     if replay is None:
         import gen as _gen
         exprs += [e for e in _gen.nested_tree_edge_family() if e not in set(exprs)]
+        # single-character classes (the escape idiom) next to other capturing tokens
+        exprs += [e for e in ["[.]*", "*[.]{tar,zip}", "**/[_]?*.rs", "log[*]<[0-9]:1,>", "[a]?", "$[B]", "[.][.]*", "{a,b}[-]*", "[!.]*[.]?"] if e not in set(exprs)]
     P = lib.Pair(exprs)
     h, m = P.h, P.m
     built = [k for k in range(len(exprs)) if P.impl[k]["ok"]]
@@ -96,6 +98,9 @@ def run(rep, tier, seed, replay):
                 problems.append("capture %d (%s) contains a separator" % (i, kd))
             if kd == "one" and len(text) != 1:
                 problems.append("capture %d (?) is not one character" % i)
+            # a class matches exactly one character: its capture is what its own sub-expression matches
+            if kd == "cls" and len(text) != 1:
+                problems.append("capture %d (a class) is %r, not one character" % (i, text))
             # (vi) a tree wildcard captures a run of complete components
             if kd == "tree" and text != "":
                 start_ok = off == 0 or cb[off - 1:off] == b"/" or text.startswith("/")
